@@ -336,6 +336,129 @@ Section Generic.
     assert (length (run f stream) = length stream) as L by apply run_from_length.
     rewrite map_fst_combine, map_snd_combine by exact L. reflexivity.
   Qed.
+  (* ---------- the whole life of one watcher: closed channels ---------- *)
+  (* a zero-value read from a closed channel starts nothing and keeps lastWindow *)
+  Lemma step_zero last : step f last 0 = (last, []).
+  Proof.
+    unfold step, index. rewrite Z.mod_0_l by lia. cbn [Z.eqb].
+    rewrite Z.div_0_l by lia. reflexivity.
+  Qed.
+
+  Lemma life_from_closed h : forall last,
+    life_from f last true h = map (fun _ => None) h.
+  Proof.
+    induction h as [|[b|] t IH]; intros last; [reflexivity| |];
+      cbn [life_from map]; rewrite IH; reflexivity.
+  Qed.
+
+  Lemma life_from_block last b t :
+    life_from f last false (EBlock b :: t) =
+    Some (snd (step f last b)) :: life_from f (fst (step f last b)) false t.
+  Proof. cbn [life_from]. destruct (step f last b). reflexivity. Qed.
+
+  Lemma life_from_close last t :
+    life_from f last false (EClose :: t) = Some [] :: map (fun _ => None) t.
+  Proof. cbn [life_from]. rewrite step_zero, life_from_closed. reflexivity. Qed.
+
+  Lemma life_from_length h : forall last c, length (life_from f last c h) = length h.
+  Proof.
+    induction h as [|[b|] t IH]; intros last c; [reflexivity| |]; destruct c;
+      cbn [life_from length]; try destruct (step f last b); try destruct (step f last 0);
+      cbn [length]; rewrite IH; reflexivity.
+  Qed.
+
+  (* the blocks offered before the first closure: the only subscription there ever is *)
+  Fixpoint first_sub (h : list event) : list Z :=
+    match h with
+    | EBlock b :: t => b :: first_sub t
+    | _ => []
+    end.
+
+  Lemma started_life_from h : forall last,
+    started_all (combine h (life_from f last false h)) = concat (run_from f last (first_sub h)).
+  Proof.
+    induction h as [|[b|] t IH]; intros last; [reflexivity| |].
+    - rewrite life_from_block. cbn [first_sub]. rewrite run_from_cons.
+      cbn [combine started_all concat]. rewrite IH. reflexivity.
+    - rewrite life_from_close. cbn [first_sub run_from concat combine started_all app].
+      clear. induction t as [|e t IH]; [reflexivity|]. cbn [map combine started_all]. exact IH.
+  Qed.
+
+  Theorem g_life_shape s rest :
+    life f (map EBlock s ++ EClose :: rest) =
+    map Some (run f s) ++ Some [] :: map (fun _ => None) rest.
+  Proof.
+    unfold life, run. generalize (@None Z) as last.
+    induction s as [|b t IH]; intros last.
+    - cbn [map app run_from]. apply life_from_close.
+    - cbn [map app]. rewrite life_from_block, run_from_cons. cbn [map app]. rewrite IH.
+      reflexivity.
+  Qed.
+
+  Theorem g_life_never_closed s : life f (map EBlock s) = map Some (run f s).
+  Proof.
+    unfold life, run. generalize (@None Z) as last.
+    induction s as [|b t IH]; intros last; [reflexivity|].
+    cbn [map]. rewrite life_from_block, run_from_cons. cbn [map]. rewrite IH. reflexivity.
+  Qed.
+
+  Theorem g_life_started h :
+    started_all (combine h (life f h)) = fired f (first_sub h).
+  Proof. apply started_life_from. Qed.
+
+  Lemma first_sub_incl h w : In w (first_sub h) -> In (EBlock w) h.
+  Proof.
+    induction h as [|[b|] t IH]; cbn [first_sub]; intros H.
+    - destruct H.
+    - destruct H as [<-|H]; [left; reflexivity|right; apply IH; exact H].
+    - destruct H.
+  Qed.
+
+  (* the executable whole-life property reduces to the per-stream one on the received blocks *)
+  Lemma life_ok_consumed obs : forall seen,
+    life_ok f seen obs = true ->
+    steps_ok f seen (consumed obs) = true /\
+    started_all obs = concat (map snd (consumed obs)).
+  Proof.
+    induction obs as [|[[b|] [out|]] t IH]; intros seen H; cbn [life_ok] in H.
+    - split; reflexivity.
+    - apply andb_true_iff in H. destruct H as [H1 H2]. destruct (IH _ H2) as [I1 I2].
+      cbn [consumed steps_ok started_all map snd concat]. rewrite H1, I1, I2. split; reflexivity.
+    - destruct (IH _ H) as [I1 I2]. cbn [consumed started_all]. split; assumption.
+    - apply andb_true_iff in H. destruct H as [H1 H2]. destruct (IH _ H2) as [I1 I2].
+      apply list_eqb_eq in H1. subst out.
+      cbn [consumed started_all app]. split; assumption.
+    - destruct (IH _ H) as [I1 I2]. cbn [consumed started_all]. split; assumption.
+  Qed.
+
+  Theorem g_life_spec_sound obs :
+    life_ok f [] obs = true ->
+    StronglySorted Z.lt (started_all obs) /\
+    (forall w, In w (started_all obs) ->
+               window_start f w /\ In w (map fst (consumed obs))) /\
+    map snd (consumed obs) = run f (map fst (consumed obs)).
+  Proof.
+    intros H. destruct (life_ok_consumed obs [] H) as [H1 H2].
+    destruct (g_spec_sound _ H1) as [E [S W]]. rewrite H2. repeat split; try assumption.
+    - apply W; assumption.
+    - apply W; assumption.
+  Qed.
+
+  Lemma life_model_ok h : forall last closed seen,
+    Inv last seen -> life_ok f seen (combine h (life_from f last closed h)) = true.
+  Proof.
+    induction h as [|[b|] t IH]; intros last closed seen HI; [reflexivity| |]; destruct closed.
+    - cbn [life_from combine life_ok]. apply IH; exact HI.
+    - rewrite life_from_block. cbn [combine life_ok].
+      destruct (step_expected last seen b HI) as [E HI']. rewrite E.
+      apply andb_true_iff. split; [apply list_eqb_eq; reflexivity|apply IH; exact HI'].
+    - cbn [life_from combine life_ok]. apply IH; exact HI.
+    - cbn [life_from]. rewrite step_zero. cbn [combine life_ok list_eqb andb].
+      apply IH; exact HI.
+  Qed.
+
+  Theorem g_life_model_passes_spec h : life_ok f [] (combine h (life f h)) = true.
+  Proof. apply life_model_ok. exact Inv_nil. Qed.
 End Generic.
 
 (* ---- instance: the frequency is the generated Go constant ---- *)
@@ -419,6 +542,72 @@ Proof.
   replace (lists_eqb _ _) with true; [reflexivity|].
   symmetry. apply lists_eqb_eq. reflexivity.
 Qed.
+
+(* ---- the whole life of one watcher (closed channels, further subscriptions) ---- *)
+Lemma opt_lists_eqb_refl l : opt_lists_eqb l l = true.
+Proof.
+  induction l as [|[x|] t IH]; [reflexivity| |]; cbn [opt_lists_eqb opt_list_eqb]; rewrite IH.
+  - rewrite (proj2 (list_eqb_eq x x) eq_refl). reflexivity.
+  - reflexivity.
+Qed.
+
+Lemma c_life_shape s rest :
+  life F (map EBlock s ++ EClose :: rest) =
+  map Some (run F s) ++ Some [] :: map (fun _ => None) rest.
+Proof. exact (g_life_shape F freq_positive s rest). Qed.
+
+Lemma c_life_never_closed s : life F (map EBlock s) = map Some (run F s).
+Proof. exact (g_life_never_closed F s). Qed.
+
+Lemma c_life_increasing h :
+  StronglySorted Z.lt (started_all (combine h (life F h))) /\
+  forall w, In w (started_all (combine h (life F h))) ->
+            (exists k, 0 < k /\ w = k * F) /\ In (EBlock w) h.
+Proof.
+  rewrite (g_life_started F freq_positive h). split.
+  - apply c_strictly_increasing.
+  - intros w Hw. destruct (c_only_window_starts _ _ Hw) as [H1 H2].
+    split; [exact H1|apply first_sub_incl; exact H2].
+Qed.
+
+Lemma c_life_spec_sound obs :
+  spec_ok F (CLife obs) = true ->
+  StronglySorted Z.lt (started_all obs) /\
+  (forall w, In w (started_all obs) ->
+             (exists k, 0 < k /\ w = k * F) /\ In w (map fst (consumed obs))) /\
+  map snd (consumed obs) = run F (map fst (consumed obs)).
+Proof. exact (g_life_spec_sound F freq_positive obs). Qed.
+
+Lemma c_life_model_passes_spec h :
+  judge (CLife (combine h (life F h))) = Agree \/
+  judge (CLife (combine h (life F h))) = BadCase.
+Proof.
+  unfold judge, judge_with. destruct (well_formed _); [left|right; reflexivity].
+  unfold decide. cbn [spec_ok agree]. change freq with F.
+  rewrite (g_life_model_passes_spec F freq_positive h).
+  assert (length (life F h) = length h) as L by apply life_from_length.
+  rewrite map_fst_combine, map_snd_combine by exact L.
+  rewrite opt_lists_eqb_refl. reflexivity.
+Qed.
+
+(* a watcher that re-subscribed and KEPT its watermark would still be covered by the
+   all-streams theorems (its received stream is the concatenation); one that forgets the
+   watermark at a re-subscription is not: a replayed window start is started again *)
+Lemma c_kept_watermark s1 s2 :
+  fired F (s1 ++ s2) = fired F s1 ++ concat (run_from F (last_after F None s1) s2).
+Proof. exact (g_cancellation_prefix F s1 s2). Qed.
+
+Lemma c_forgotten_watermark_refuted :
+  exists s1 s2, ~ StronglySorted Z.lt (fired F s1 ++ fired F s2).
+Proof.
+  exists [F], [F]. vm_compute. intros H. inversion H as [|a l _ Hall]; subst.
+  inversion Hall as [|x y Hlt _]; subst. vm_compute in Hlt. discriminate.
+Qed.
+
+Example life_example :
+  life F [EBlock F; EBlock (2 * F); EClose; EBlock F; EBlock (3 * F); EClose; EBlock (4 * F)] =
+  [Some [F]; Some [2 * F]; Some []; None; None; None; None].
+Proof. vm_compute. reflexivity. Qed.
 
 (* the pure functions *)
 Lemma c_index_spec b :
